@@ -223,3 +223,23 @@ Example C02_example_parse :
                  (ENot (EPar (ECmp CNe (EVar [114; 95; 111; 98; 106] []) (EVar [112; 95; 111; 98; 106] [])))))
            (EIn (EVar [114; 95; 97; 99; 116] []) [EStr true [114; 101; 97; 100]; EStr false [119]] false).
 Proof. vm_compute. repeat split; reflexivity. Qed.
+
+(* ---------- util.remove_comments, from the source ----------
+   regenerated from casbin/util/util.py on this run (translators/remcomments.py -> coq/gen/CmtGen.v), executed by the interpreter
+   of CmtLang.v: it computes MatcherText.remove_comments, the last step of the text every effect / matcher definition is stored
+   as (stored_value); escape_assertion, has_eval and the expression rewriting are regex-based and stay hand models tied by the
+   differential matcher-text strata. *)
+From PyCasbin Require CmtLang CmtTie.
+From PyCasbinGen Require CmtGen.
+
+Theorem C02_source_remove_comments : forall s,
+  CmtLang.mrun 12 CmtGen.remove_comments_params CmtGen.remove_comments_gen [CmtLang.MVS s] = Ok (CmtLang.MVS (remove_comments s)).
+Proof. exact CmtTie.tie_remove_comments. Qed.
+Print Assumptions C02_source_remove_comments.
+
+Example C02_source_remove_comments_example :
+  (* "m = a  # b" -> "m = a" ; a text without '#' is returned as it is (not stripped) *)
+  CmtLang.mrun 12 CmtGen.remove_comments_params CmtGen.remove_comments_gen [CmtLang.MVS [109; 32; 61; 32; 97; 32; 32; 35; 32; 98]]
+    = Ok (CmtLang.MVS [109; 32; 61; 32; 97])
+  /\ CmtLang.mrun 12 CmtGen.remove_comments_params CmtGen.remove_comments_gen [CmtLang.MVS [32; 97; 32]] = Ok (CmtLang.MVS [32; 97; 32]).
+Proof. vm_compute. split; reflexivity. Qed.
